@@ -4,6 +4,6 @@ cd "$(dirname "$0")/.."
 seed="${1:-0}"
 ids=$(python3 -c "import json;print(' '.join(c['property_id'] for c in json.load(open('MANIFEST.json'))['checks']))")
 for id in $ids; do
-  ./check $id --tier thorough --seed $seed --no-evidence > /tmp/vf-thorough-$id.log 2>&1
-  echo "$id exit=$? $(tail -1 /tmp/vf-thorough-$id.log)"
+  ./check $id --tier thorough --seed $seed --no-evidence > /tmp/vf-thorough-$id-s$seed.log 2>&1
+  echo "$id exit=$? $(tail -1 /tmp/vf-thorough-$id-s$seed.log)"
 done
